@@ -81,6 +81,84 @@ BREAKERS = [
 ]
 
 
+PAIRS = [("(", ")"), ("[", "]"), ("{", "}")]
+VALUE_HOSTS = ["int x[@];", "int y = @;", "void f(int a = @);", "struct S { int m[@]; };", "using T = int[@];", "enum E { A = @ };",
+               "int z{@};", "[[a(@)]] int q;", "template <int N = @> struct W {};", "void g() noexcept(@);"]      # (static_assert and bodies are skipped by counting their own bracket kind only: not an enforced rule)
+
+
+def nested(rng, depth):
+    """a strictly nested bracket expression over ( ) [ ] { } as a token list"""
+    out = []
+    for _ in range(rng.randint(1, 3)):
+        r = rng.random()
+        if r < 0.45 and depth > 0:
+            o, c = rng.choice(PAIRS)
+            if o == "{":
+                out += ["k"]
+            out += [o] + nested(rng, depth - 1) + [c]
+        else:
+            out.append(rng.choice(["a", "1", "b", "n"]))
+            if rng.random() < 0.35 and depth > 0:
+                out += ["["] + nested(rng, depth - 1) + ["]"]          # subscripts: closers pile up as ']]'
+        if rng.random() < 0.4:
+            out.append(rng.choice(["+", ",", "*"]))
+    if out[-1] in "+,*":
+        out.append("c")
+    return out
+
+
+def break_brackets(rng, toks):
+    """make the expression mismatched: swap a closer for one of another kind, drop an opener, or add a stray closer"""
+    toks = list(toks)
+    closers = [i for i, t in enumerate(toks) if t in ")]}"]
+    openers = [i for i, t in enumerate(toks) if t in "([{"]
+    r = rng.random()
+    if r < 0.5 and closers:
+        i = rng.choice(closers)
+        toks[i] = rng.choice([c for c in ")]}" if c != toks[i]])
+    elif r < 0.65 and openers:
+        del toks[rng.choice(openers)]
+    elif r < 0.85 and closers:
+        del toks[rng.choice(closers)]
+    else:
+        toks.insert(rng.randint(0, len(toks)), rng.choice(")]}"))
+    return toks
+
+
+def pile_up(rng):
+    """nested groups whose closers pile up at the end; one closer that is not ']' is dropped, so that two ']' become
+    adjacent (one DBL_RBRACKET token) across the group that is left open"""
+    k = rng.randint(2, 4)
+    kinds = [rng.choice(PAIRS) for _ in range(k)]
+    kinds[0] = ("[", "]")
+    kinds[-1] = ("[", "]")
+    if all(o == "[" for o, _ in kinds):
+        kinds.insert(1, rng.choice(PAIRS[::2]))
+    toks = []
+    for o, c in kinds:
+        toks += [rng.choice(["a", "b", "k"]), o]
+    toks.append(rng.choice(["0", "n"]))
+    closers = [c for _, c in reversed(kinds)]
+    drop = rng.choice([i for i, c in enumerate(closers) if c != "]"])
+    del closers[drop]
+    return toks[1:] + closers if rng.random() < 0.5 else ["x"] + toks[1:] + closers + rng.choice([[], ["+", "1"]])
+
+
+def gen_mismatch(rng):
+    if rng.random() < 0.3:
+        e = pile_up(rng)
+        if e[0] == "[":
+            e = e[1:-1] if e[-1] == "]" and rng.random() < 0.5 else ["v"] + e
+        text = "".join(e).replace("[[", "[ [")
+        return rng.choice(VALUE_HOSTS).replace("@", text)
+    e = break_brackets(rng, nested(rng, rng.choice([1, 2, 3])))
+    sep = rng.choice([" ", ""])
+    text = sep.join(e)
+    if sep == "":
+        text = text.replace("[[", "[ [")          # '[[' opens an attribute; ']]' stays adjacent on purpose
+    return rng.choice(VALUE_HOSTS).replace("@", text)
+
+
 def check_breaker(name, text, ctxname, tmpl):
     src = tmpl.replace("@", text)
     try:
@@ -172,6 +250,16 @@ def search(ctx, boost=False):
             msg = check_breaker(name, text, cname, tmpl)
             if msg:
                 s.violations.append(dict(what=msg, case=dict(kind="breaker", name=name, text=text, ctx=cname, tmpl=tmpl)))
+    # systematically mismatched brackets in every place an unparsed value or a skipped group can stand
+    for _ in range(ctx.scale(600, 15000) * (3 if boost else 1)):
+        text = gen_mismatch(rng)
+        cname, tmpl = rng.choice(CONTEXTS[:4]) if "struct" in text or "template" in text or "enum" in text else rng.choice(CONTEXTS)
+        s.evaluations += 1
+        s.count("mismatch")
+        s.nontrivial.add(text)
+        msg = check_breaker("mismatched brackets", text, cname, tmpl)
+        if msg:
+            s.violations.append(dict(what=msg + ": " + text, case=dict(kind="breaker", name="mismatched brackets", text=text, ctx=cname, tmpl=tmpl)))
     s.samples = [dict(text=t[:160]) for t in list(s.nontrivial)[:3]]
     return s
 
